@@ -197,6 +197,41 @@ func (l *Loader) Load(mod string) (*Prog, error) {
 	if len(roots) == 0 {
 		return nil, fmt.Errorf("load %s: zero packages", mod)
 	}
+	// pure renames of unexported helpers and fields are undone through an overlay (anchors.go): the
+	// tree is loaded a second time with the recorded names written back
+	{
+		p0 := &Prog{Module: mod, Tags: l.tags, Fset: fset, Roots: roots, Pkgs: map[string]*packages.Package{}}
+		clean := true
+		packages.Visit(roots, nil, func(pk *packages.Package) {
+			p0.Pkgs[pk.PkgPath] = pk
+			if strings.HasPrefix(pk.PkgPath, hivePrefix) && len(pk.Errors) > 0 {
+				clean = false
+			}
+		})
+		if clean && genAnchorsPath == "" {
+			if edits := detectRenames(p0); len(edits) > 0 {
+				if ov, err := applyRenameEdits(edits); err == nil {
+					fset = token.NewFileSet()
+					cfg.Fset = fset
+					cfg.Overlay = ov
+					if r2, err2 := packages.Load(cfg, "./..."); err2 == nil && len(r2) > 0 {
+						bad := false
+						packages.Visit(r2, nil, func(pk *packages.Package) {
+							if strings.HasPrefix(pk.PkgPath, hivePrefix) && len(pk.Errors) > 0 {
+								bad = true
+							}
+						})
+						if !bad {
+							roots = r2
+						} else {
+							fmt.Fprintln(os.Stderr, "advice: the tree with the recorded names written back does not type-check; analysing it as written")
+							fset = p0.Fset
+						}
+					}
+				}
+			}
+		}
+	}
 	p := &Prog{Module: mod, Tags: l.tags, Fset: fset, Roots: roots, Pkgs: map[string]*packages.Package{}}
 	var errs []string
 	packages.Visit(roots, nil, func(pk *packages.Package) {
@@ -222,6 +257,9 @@ func (l *Loader) Load(mod string) (*Prog, error) {
 		if pk.TypesInfo != nil {
 			progOfInfo[pk.TypesInfo] = p
 		}
+	}
+	if genAnchorsPath != "" {
+		recordAnchors(p)
 	}
 	buildKeySubst(p)
 	return p, nil
@@ -289,6 +327,10 @@ func (p *Prog) FuncDecl(pkg, recv, name string) *ast.FuncDecl {
 				return fd
 			}
 		}
+	}
+	// a pure rename of an unexported helper (anchors.go)
+	if fd := p.renamedAnchor(pkg, recv, name); fd != nil {
+		return fd
 	}
 	// a method turned into a package-level function that takes the former receiver as a parameter
 	if recv != "" {
